@@ -67,6 +67,8 @@ def run(chk):
                        'E-UNI': 'formulas of depth <= 2 (core) and seed-chosen depth 3-4 with <= 3 nested variables on instances U2, C2, M2 (thorough: U3 shallow)',
                        'outside': 'networks with more than 3 variables are covered only through the inductive argument (operators + dispatch) under the library model'})
     chk.assumptions += ['E-MIR: bit-vector model of the biodivine libraries (DESIGN.md 3.4); attractor search by contract stub', 'HashMap/HashSet iteration in insertion order (all orders are explored in C04)']
+    from .. import conformance
+    conformance.run(chk, 2, 1); conformance.run(chk, 3, 0, samples=2)
     kernel_part(chk, configs)
     fs = dispatch_formulas()
     tasks = []
